@@ -231,6 +231,23 @@ def leak_programs():
                        None if refuse_at is None else base + 4 + refuse_at, base + 4 + stale_at)
 
 
+def owner_death_programs():
+    """(second hunt, C06/d1) a handle copied out of an object, measured, THEN the owner dies (null, destroy, scope end, replaced, a field's owner
+    destroyed): the owner's death is not a reset of the handle's qubit - the next gate through the handle is refused, and after an explicit reset
+    it is accepted. -> same tuple shape as leak_programs"""
+    from checks import c03
+    base = c03.LEAK_CLS.count("\n") + 1
+    deaths = {"null": ("Lk a = new Lk(); qubit s = a.q;", "a = null;"), "destroy": ("Lk a = new Lk(); qubit s = a.q;", "destroy a;"), "replaced": ("Lk a = new Lk(); qubit s = a.q;", "a = new Lk();"),
+              "via-method": ("Lk a = new Lk(); qubit s = a.out();", "a = null;"), "holder-field": ("Hd hh = new Hd(); qubit s = hh.a.q;", "hh = null;"),
+              "static-owner": ("G.so = new Lk(); qubit s = G.so.q;", "G.so = null;")}
+    for dn, (decl, death) in deaths.items():
+        for prep in ("x(s);", "h(s); x(s);"):
+            lines = ["function main() -> void {", "qubit pad;", decl, prep, "measure s;", death, "x(s);", "echo(\"end\");", "}"]
+            yield ("leak:owner-dies-after-measure:%s:%s:gate-must-be-refused" % (dn, "x" if prep == "x(s);" else "hx"), c03.LEAK_CLS + "\n".join(lines) + "\n", base + 6, base + 6)
+            lines = ["function main() -> void {", "qubit pad;", decl, prep, "measure s;", death, "reset s;", "x(s);", "echo(\"end\");", "}"]
+            yield ("leak:owner-dies-after-measure:%s:%s:reset-then-gate-accepted" % (dn, "x" if prep == "x(s);" else "hx"), c03.LEAK_CLS + "\n".join(lines) + "\n", None, base + 6)
+
+
 def _leak_one(item):
     name, src, must_refuse, stale_line = item
     r = vdrv.run_src(src, gc="own", warn=0)
@@ -276,7 +293,7 @@ def main(tier):
     res = simlevel.run_all([["bfs", "full", 3, 8 if tier != "thorough" else 10]])
     simlevel.report(ck, res, {"C06"})
     nleak = 0
-    for name, src, prob in vdrv.pmap(_leak_one, list(leak_programs()), chunksize=4):
+    for name, src, prob in vdrv.pmap(_leak_one, list(leak_programs()) + list(owner_death_programs()), chunksize=4):
         nleak += 1
         if prob:
             ck.violation(":".join(name.split(":")[:2] + name.split(":")[3:]) + ":" + prob.split(" ")[0], "%s\ncase %s\nprogram:\n%s" % (prob, name, src),
